@@ -209,9 +209,10 @@ func VerifTicksReset() {
 	for i := range verifTicks {
 		atomic.StoreInt64(&verifTicks[i], 0)
 	}
-	atomic.StoreInt64(&verifGaugeMax[0], 0)
-	atomic.StoreInt64(&verifGaugeMax[1], 0)
-	atomic.StoreInt64(&verifGaugeMax[2], 0)
+	for i := range verifGaugeMax {
+		atomic.StoreInt64(&verifGaugeMax[i], 0)
+		atomic.StoreInt64(&verifGaugeCur[i], 0)
+	}
 }
 
 // Gauges published by the stream loop at every iteration: current values and
